@@ -194,3 +194,10 @@ package mkvs
 //@   requires c != nil
 //@   ensures err == nil && GRemoteSyncs > old(GRemoteSyncs) ==> result0 != nil
 //@   note when the node had to be fetched from the remote peer (remoteSync was called) and no error is returned, a node is returned: a peer's proof that verifies but does not carry the requested node cannot make a present key look absent
+
+//@ func cache.remoteSync
+//@   props C04
+//@   requires c != nil && ptr != nil
+//@   precall ProofVerifier\)\.VerifyProof$ :: argIs(2, proof) && ((argAs[hash.Hash](1) == ptr.Hash && dstPtr == ptr) || (argAs[hash.Hash](1) == c.syncRoot.Hash && dstPtr == c.pendingRoot))
+//@   precall MergeVerifiedSubtree$ :: argIs(1, dstPtr) && argIs(2, subtree) && err == nil && (dstPtr == ptr || dstPtr == c.pendingRoot)
+//@   note a fetched proof is verified against a hash this node already trusts - the hash of the pointer being dereferenced, or the hash of the sync root - and the verified subtree is merged at the corresponding pointer (the dereferenced pointer, or the pending root); nothing is merged before verification succeeded
